@@ -179,7 +179,9 @@ type c12Foreign struct {
 
 func c12ForeignObjects(schemas ast.Schemas, schema *ast.Schema) c12Foreign {
 	res := c12Foreign{}
-	key := func(o ast.Object) string { return o.SelfRef.ReferredPkg + "\x00" + o.SelfRef.ReferredType + "\x00" + o.Name }
+	key := func(o ast.Object) string {
+		return o.SelfRef.ReferredPkg + "\x00" + o.SelfRef.ReferredType + "\x00" + o.Name
+	}
 	seen := map[string]bool{}
 	edges := map[string][]string{}
 	var queue []ast.Object
@@ -533,7 +535,7 @@ func c12CheckDefinitions(schemas ast.Schemas, schema *ast.Schema, defs JV, prefi
 
 // ---- one verdict per emitted document ------------------------------------------------------
 
-func c12VerdictJSONSchema(schemas ast.Schemas, schema *ast.Schema, text []byte) string {
+func c12VerdictJSONSchema(schemas ast.Schemas, schema *ast.Schema, text []byte, loaders bool) string {
 	doc, err := parseJV(text)
 	if err != nil {
 		return "FAIL emitted-not-json " + shortErr(err)
@@ -548,7 +550,7 @@ func c12VerdictJSONSchema(schemas ast.Schemas, schema *ast.Schema, text []byte) 
 		fails = append(fails, fmt.Sprintf("ref-unresolved %v", bad))
 	}
 	fails = append(fails, c12CheckDefinitions(schemas, schema, defs, c12JSPrefix)...)
-	if len(fails) == 0 {
+	if len(fails) == 0 && loaders {
 		// the loaders are only meaningful on a document whose references resolve
 		if err := c12LoadSanthosh(text, names); err != nil {
 			fails = append(fails, "loader-rejects loader=santhosh "+shortErr(err))
@@ -563,7 +565,7 @@ func c12VerdictJSONSchema(schemas ast.Schemas, schema *ast.Schema, text []byte) 
 	return "FAIL " + strings.Join(fails, " ;; ")
 }
 
-func c12VerdictOpenAPI(schemas ast.Schemas, schema *ast.Schema, text []byte) string {
+func c12VerdictOpenAPI(schemas ast.Schemas, schema *ast.Schema, text []byte, loaders bool) string {
 	doc, err := parseJV(text)
 	if err != nil {
 		return "FAIL emitted-not-json " + shortErr(err)
@@ -574,7 +576,7 @@ func c12VerdictOpenAPI(schemas ast.Schemas, schema *ast.Schema, text []byte) str
 		fails = append(fails, fmt.Sprintf("ref-unresolved %v", bad))
 	}
 	fails = append(fails, c12CheckDefinitions(schemas, schema, defs, c12OAPrefix)...)
-	if len(fails) == 0 {
+	if len(fails) == 0 && loaders {
 		if _, err := c12LoadKin(text); err != nil {
 			fails = append(fails, "loader-rejects loader=kin-openapi "+shortErr(err))
 		}
